@@ -26,6 +26,19 @@ class Row:
     pass
 
 
+def entry_decision(p, R, keyterm):
+    """first decision taken on this path about whether the timelines map has an entry under keyterm"""
+    for (t, v, s) in p.conds:
+        d = t
+        if t[0] == "bin" and t[1] == "Eq" and t[2][0] == "discr" and pse.is_const(t[3]):
+            d = t[2]
+            v = v if t[3][2] == 1 else 1 - v
+        if d[0] == "discr" and d[1][0] == "proj" and d[1][2] == ("entry", keyterm) and \
+                pse.contains(d[1][1], ("field", ("deref", ("param", 1)), R["timelines"])):
+            return v
+    return None
+
+
 def build(ctx, facts=None, adt_path=ANIM_ADT, trait=SA_TRAIT, crate="mina_core"):
     facts = facts or ctx.facts
     R = roles_of(facts, adt_path)
@@ -47,8 +60,7 @@ def build(ctx, facts=None, adt_path=ANIM_ADT, trait=SA_TRAIT, crate="mina_core")
         r.same = decided(p, p_same)
 
         def p_rec(t):
-            return t[0] == "discr" and t[1] == ("optref-of", self_cell, (("field", R["pause"]),)) or \
-                (t[0] == "discr" and t[1] == init("pause"))
+            return t[0] == "discr" and t[1] == init("pause")
         r.has_record = decided(p, p_rec)
 
         def p_match(t):
@@ -60,12 +72,7 @@ def build(ctx, facts=None, adt_path=ANIM_ADT, trait=SA_TRAIT, crate="mina_core")
             return False
         r.rec_matches = decided(p, p_match)
 
-        def has_tl(keyterm):
-            loc = ("optref-of", self_cell, (("field", R["timelines"]), ("entry", keyterm)))
-            k = p.known.get(("discr", loc, pse.OPT_VARIANTS))
-            if k is not None and k[0] == "is":
-                return k[1]
-            return None
+        has_tl = lambda keyterm: entry_decision(p, R, keyterm)
         r.cur_animated = has_tl(init("current_state"))
         r.tgt_animated = has_tl(target)
         r.resume = (r.has_record == 1 and r.rec_matches == 1)
